@@ -4,6 +4,7 @@ family (shared Variables, shared sub-modules, self-reference, containers in non-
 order). A canonical form (node types, static attributes, Variable type/value/metadata, identity
 classes of reachable objects) is compared before/after. Labelled bounded: never counted as proved."""
 import itertools
+import numpy as np
 from . import _env  # noqa: F401
 
 NAME = 'bounded:nnx split/merge/state/clone/update/pop on small object graphs'
@@ -249,10 +250,102 @@ def _check_pop(nnx, name, build):
   return None
 
 
+def _array_graphs(nnx):
+  """graphs that also hold RAW arrays (jax / numpy) as attributes and container elements"""
+  import jax.numpy as jnp
+
+  class M(nnx.Module):
+    pass
+
+  def g_array_attrs():
+    m = M()
+    m.w = nnx.Param(jnp.array(1.0))
+    m.table = M()
+    m.table.values = jnp.arange(3.0)                 # a sub-module whose ONLY attribute is a raw array
+    m.arr = jnp.array([1.0, 2.0])
+    m.k = 3
+    return m
+
+  def g_arrays_in_containers():
+    m = M()
+    m.items = [jnp.array(1.0), nnx.Param(jnp.array(2.0)), {'z': np.arange(2.0), 'a': jnp.array(5.0)}]
+    m.sub = M()
+    m.sub.a = jnp.zeros((2,))
+    m.sub.b = nnx.BatchStat(jnp.ones((2,)))
+    m.sub.c = jnp.ones((1,))
+    return m
+
+  def g_two_arrays_one_level():
+    m = M()
+    m.left, m.right = M(), M()
+    m.left.x, m.left.y = jnp.array(1.0), jnp.array(2.0)
+    m.right.x = jnp.array(3.0)
+    m.v = nnx.Param(jnp.array(4.0))
+    return m
+  return dict(array_attrs=g_array_attrs, arrays_in_containers=g_arrays_in_containers, two_arrays_one_level=g_two_arrays_one_level)
+
+
+def _leaf_paths_with_arrays(nnx, root):
+  import jax
+  out, seen = [], set()
+
+  def walk(x, path):
+    if isinstance(x, nnx.Variable) or isinstance(x, (jax.Array, np.ndarray)):
+      out.append((path, x))
+    elif isinstance(x, nnx.Module):
+      if id(x) in seen:
+        return
+      seen.add(id(x))
+      for k in sorted(k for k in vars(x) if not k.startswith('_object__')):
+        walk(vars(x)[k], path + (k,))
+    elif isinstance(x, dict):
+      for k in sorted(x):
+        walk(x[k], path + (k,))
+    elif isinstance(x, (list, tuple)):
+      for i, v in enumerate(x):
+        walk(v, path + (i,))
+  walk(root, ())
+  return out
+
+
+def _check_arrays(nnx, name, build):
+  g = build()
+  before = _canon(nnx, g)
+  graphdef, state = nnx.split(g)
+  back = nnx.merge(graphdef, state)
+  if _canon(nnx, back) != before:
+    return f'merge(split(g)) is not isomorphic to g: {_canon(nnx, back)!r} vs {before!r}'
+  ref = _leaf_paths_with_arrays(nnx, g)
+  flat = dict(nnx.to_flat_state(nnx.state(g)))
+  if set(flat) != {p for p, _ in ref}:
+    return f'state lists paths {sorted(flat, key=str)}, the Variables and raw arrays of the graph sit at {sorted((p for p, _ in ref), key=str)}'
+  for p, leaf in ref:
+    got = flat[p]
+    gv = got.value if hasattr(got, 'value') and not isinstance(got, np.ndarray) else got
+    lv = leaf.value if isinstance(leaf, nnx.Variable) else leaf
+    if np.asarray(gv).shape != np.asarray(lv).shape or not np.array_equal(np.asarray(gv), np.asarray(lv)):
+      return f'state holds {np.asarray(gv).tolist()} at {p}, the graph holds {np.asarray(lv).tolist()}'
+  gd, params, rest = nnx.split(g, nnx.Param, ...)
+  if _canon(nnx, nnx.merge(gd, params, rest)) != before or _canon(nnx, nnx.merge(gd, rest, params)) != before:
+    return 'merging the (Param, ...) states rebuilds another graph'
+  if _canon(nnx, nnx.clone(g)) != before:
+    return 'clone is not isomorphic to the original'
+  return None
+
+
 def run(tier, seed):
   from flax import nnx
   graphs = _graphs(nnx)
   cases, fails = 0, []
+  for name, build in _array_graphs(nnx).items():
+    cases += 1
+    try:
+      msg = _check_arrays(nnx, name, build)
+    except Exception as e:  # noqa
+      import traceback
+      msg = f'raised {e!r} ' + traceback.format_exc()[-300:]
+    if msg:
+      fails.append(dict(inputs=dict(graph=name, check='graph-roundtrip (raw arrays)'), observed=msg[:500], violated='graph-roundtrip'))
   for name, build in graphs.items():
     for what, fn in (('graph-roundtrip', _check), ('pop-removes-selected', _check_pop)):
       cases += 1
@@ -263,11 +356,13 @@ def run(tier, seed):
         msg = f'raised {e!r} ' + traceback.format_exc()[-300:]
       if msg:
         fails.append(dict(inputs=dict(graph=name, check=what), observed=msg[:500], violated=what))
-  return dict(name=NAME, cases=cases, distinct=cases, bound='10 object graphs (incl. a 12-element module list and an int-keyed dict) (tree, shared Variable, shared Module, cycles, non-alphabetical dict, Variable shared across a cycle, Variable with a get-value hook, named tuple of sub-modules, named tuple / OrderedDict with non-alphabetical keys) x split/merge/state/clone/update/pop',
+  return dict(name=NAME, cases=cases, distinct=cases, bound='10 object graphs (incl. a 12-element module list and an int-keyed dict) (tree, shared Variable, shared Module, cycles, non-alphabetical dict, Variable shared across a cycle, Variable with a get-value hook, named tuple of sub-modules, named tuple / OrderedDict with non-alphabetical keys) x split/merge/state/clone/update/pop; 3 graphs holding raw jax / numpy arrays x split/merge/state/clone',
               failures=fails, error=None)
 
 
 def replay(inputs):
   from flax import nnx
+  if inputs.get('graph') in _array_graphs(nnx):
+    return _check_arrays(nnx, inputs['graph'], _array_graphs(nnx)[inputs['graph']]) is None
   fn = _check_pop if inputs.get('check') == 'pop-removes-selected' else _check
   return fn(nnx, inputs['graph'], _graphs(nnx)[inputs['graph']]) is None
